@@ -74,7 +74,9 @@ fn main() {
     }
     // The simulator owns the scheduling points inside cells.
     #[cfg(feature = "e1")]
-    mv_sim::verif::set_sched_point(Some(sim_rayon::sim::sched_point));
+    if std::env::var("VERIF_NO_SCHED_HOOK").is_err() {
+        mv_sim::verif::set_sched_point(Some(sim_rayon::sim::sched_point));
+    }
 
     let args = Args::parse();
     let code = match args.cmd.as_str() {
